@@ -14,7 +14,10 @@ def gen_cases(seed):
     rng = random.Random(seed ^ 0xC19)
     devs = ["/dev/sg0", "/dev/", "/dev", "/dev/shm/x", "/Dev/sg0", "dev/sg0", " /dev/sg0", "/devx/sg0", "/de/v/", "iscsi://h/iqn.t/0",
             "iscsi://", "iscsi:/h", "iscsi:///", "ISCSI://h/t/0", "iscsi//h", "iscsi:/", "", "x", "/", "file:///dev/sg0", "iscsi://h/t/7",
-            "/dev/sg0iscsi://", "iscsi:///dev/sg0"]
+            "/dev/sg0iscsi://", "iscsi:///dev/sg0",
+            # URLs with CHAP credentials, ports, escapes and queries; paths with unusual characters: opened exactly as requested
+            "iscsi://user%secret@10.0.0.1:3260/iqn.2000-01.t:x/0", "iscsi://u%p@h/t/1", "iscsi://user@h/t/0", "iscsi://h/t%41/0",
+            "iscsi://h:3260/iqn.t/0?x=y", "iscsi://a%b%c@d@e/t/2", "/dev/sg0%x@y", "/dev/disk/by-id/scsi-3600%41@b", "/dev/sg0 ", "/dev//sg0/../sg1"]
     for _ in range(30):
         base = rng.choice(["/dev/", "iscsi://"])
         i = rng.randrange(len(base))
